@@ -29,19 +29,20 @@ Definition set_code_stmt : Prop :=
 
 (* 3. the 8-byte setter truncates: in range -> the integer part of the quotient (off by less than one step),
       otherwise / NaN / infinity -> the out-of-range code; never NA *)
+Definition is_b64 (q:fval) : Prop := forall neg m e, q = FFin neg m e -> 0 <= m <= 2^53.   (* every binary64 value has a mantissa of at most 53 bits *)
 Definition set_code8_stmt : Prop :=
-  forall q,
+  forall q, is_b64 q ->
     let c := set_code8 q in
     lo 8 true <= c <= orc 8 true /\ c <> nac 8 true /\
     (q = FNaN -> c = orc 8 true) /\ (forall b, q = FInf b -> c = orc 8 true) /\
-    (forall neg m e, q = FFin neg m e -> 0 <= m ->
+    (forall neg m e, q = FFin neg m e ->
        let num := fin_num neg m e in let den := fin_den e in
        ((- 2^63) * den <= num < 2^63 * den -> Z.abs (c * den - num) < den /\ (0 <= num -> c * den <= num) /\ (num <= 0 -> num <= c * den)) /\
        (~ ((- 2^63) * den <= num < 2^63 * den) -> c = orc 8 true)).
 
 (* 4. "not available" is stored as the NA code and nothing else is *)
 Definition add_double_na_stmt : Prop :=
-  forall n s pbits, width_ok n ->
+  forall n s pbits, width_ok n -> (n = 8%nat -> s = true) ->      (* 8-byte scaled fields exist only signed (Add8ByteDouble) *)
     add_double n s na_double_bits pbits = le_bytes n (nac n s mod pow8 n) /\
     (forall vbits, vbits <> na_double_bits ->
        exists c, lo n s <= c <= orc n s /\ add_double n s vbits pbits = le_bytes n (c mod pow8 n)).
@@ -59,7 +60,7 @@ Definition get_double_stmt : Prop :=
 
 (* 6. NA round trip through set and get, any precision, any default *)
 Definition na_roundtrip_stmt : Prop :=
-  forall n s pbits pbits' defbits post, width_ok n ->
+  forall n s pbits pbits' defbits post, width_ok n -> (n = 8%nat -> s = true) ->
     get_double n s pbits' defbits 0 (Z.of_nat n) (add_double n s na_double_bits pbits ++ post) = (defbits, Z.of_nat n).
 
 (* 7. pure arithmetic: rounding the exact quotient a/b half away from zero lands within half a step *)
